@@ -13,7 +13,7 @@ import (
 // C15 — reading, persisting and merging never modify a segment or the caller's bitmaps.
 const c15Rule = "case = 2..3 segments (built / loaded / merged) + caller-owned bitmaps (array containers holding consecutive values, so that an in-place run-optimisation would change their bytes; " +
 	"foreign numbers for exclusions) and a history of <=10 actions: postings walks with a bitmap as exclusion, DocsMatchingTerms, stored / doc-value visits, WriteTo, merges (hooked and public) taking drawn segments as " +
-	"inputs with the bitmaps as drops; oracle = snapshot before (full observation + persisted bytes per segment; clone + serialised bytes per bitmap), everything re-observed after every action must be identical " +
+	"inputs with the bitmaps as drops, builds of unrelated batches; oracle = snapshot before (full observation + persisted bytes per segment; clone + serialised bytes per bitmap), everything re-observed after every action must be identical " +
 	"(set AND representation equality for bitmaps); non-trivial = the history contains a merge with a non-empty drop bitmap followed by a re-observation of its inputs; distinct = hash of case text + history"
 
 type segSnap struct {
@@ -128,7 +128,11 @@ func c15Prop(st *CaseStats) func(t *rapid.T) {
 			si := rapid.IntRange(0, nSeg-1).Draw(t, "seg")
 			c := cases[si]
 			var err error
-			switch rapid.IntRange(0, 7).Draw(t, "action") {
+			switch rapid.IntRange(0, 8).Draw(t, "action") {
+			case 8: // building other batches (pooled builder state) must not reach into existing segments
+				hist += " buildOther"
+				ob := GenBatch(t, sc, 6)
+				_, err = Build(ob, sc.Norm, rapid.SampledFrom(ChunkModes).Draw(t, "otherMode"))
 			case 0, 1: // postings walk with a caller bitmap as exclusion
 				bm := excl
 				if rapid.Bool().Draw(t, "useDrop") {
